@@ -615,19 +615,30 @@ func wrapChecked(b *ssa.BasicBlock, i int, inc *ssa.BinOp, owner *types.Named, e
 			return false, "a call precedes the wrap test"
 		case *ssa.If:
 			bo, ok := x.Cond.(*ssa.BinOp)
-			if !ok || bo.Op != token.EQL || !isZeroConst(bo.Y) {
+			if !ok || (bo.Op != token.EQL && bo.Op != token.NEQ) {
 				return false, "the branch after the increment is not a comparison with 0"
 			}
-			if bo.X != ssa.Value(inc) && !derivesFromLoadOf(bo.X, owner, ef, 0) {
+			tested := bo.X
+			if isZeroConst(bo.X) {
+				tested = bo.Y
+			} else if !isZeroConst(bo.Y) {
+				return false, "the branch after the increment is not a comparison with 0"
+			}
+			if tested != ssa.Value(inc) && !derivesFromLoadOf(tested, owner, ef, 0) {
 				return false, "the comparison does not test the epoch field"
 			}
-			// look for a constant element store into V within the taken region (bounded BFS)
+			// the branch taken when the epoch has wrapped: `if E == 0 { clear }` or `if E != 0 { return }; clear`
+			wrap := b.Succs[0]
+			if bo.Op == token.NEQ {
+				wrap = b.Succs[1]
+			}
+			// look for a constant element store into V within the region only the wrapped case reaches (bounded BFS)
 			seen := map[*ssa.BasicBlock]bool{}
-			work := []*ssa.BasicBlock{b.Succs[0]}
+			work := []*ssa.BasicBlock{wrap}
 			for len(work) > 0 && len(seen) < 8 {
 				c := work[0]
 				work = work[1:]
-				if seen[c] {
+				if seen[c] || (len(wrap.Preds) == 1 && !wrap.Dominates(c)) {
 					continue
 				}
 				seen[c] = true
